@@ -21,11 +21,9 @@ def matchesService (s o : Service) : Bool :=
 def rebootCond (flag oldFlag : Bool) (oldSid sid : Nat) : Bool :=
   (if (flag && ((!oldFlag) || (decide (oldSid > 0) && decide (oldSid ≥ sid)))) = true then true else false)
 
--- UNTRANSLATED: successor tuple (the model's own definition stands in; only the correspondence check ties it)
 def nextOutgoing (flag : Bool) (id : Nat) : Bool × Nat :=
-  if id ≥ 0xFFFF then (false, 1) else (flag, id + 1)
+  (if decide (id ≥ 65535) = true then (false, 1) else (flag, (id + 1)))
 
--- UNTRANSLATED: successor tuple (the model's own definition stands in; only the correspondence check ties it)
 def outgoingDefault : Bool × Nat :=
   (true, 1)
 
